@@ -16,6 +16,7 @@ import (
 	"net/http"
 	"os"
 	"strings"
+	"sync"
 	"testing"
 	"testing/synctest"
 	"time"
@@ -27,10 +28,11 @@ import (
 )
 
 type c19Peer struct {
-	OffMs  int64  `json:"off_ms"` // true clock offset of the peer (peer - local)
-	D1Ms   int64  `json:"d1_ms"`  // request delay
-	D2Ms   int64  `json:"d2_ms"`  // response delay
-	Answer string `json:"answer"` // ok | drop | 500 | refuse | garbage
+	OffMs  int64  `json:"off_ms"`              // true clock offset of the peer (peer - local)
+	OffY   int    `json:"off_years,omitempty"` // additionally: whole years (a clock that is absurdly wrong is still wrong)
+	D1Ms   int64  `json:"d1_ms"`               // request delay
+	D2Ms   int64  `json:"d2_ms"`               // response delay
+	Answer string `json:"answer"`              // ok | drop | 500 | refuse | garbage
 }
 
 type c19Scenario struct {
@@ -68,6 +70,9 @@ func (c19Engine) Generate(seed uint64, prop, tier string) (json.RawMessage, erro
 		default:
 			p.OffMs = 0
 		}
+		if g.Chance(1, 25) {
+			p.OffY = g.Pick2(-1900, -400, -293, -292, -100, -56, 56, 100, 292, 293, 400, 5000)
+		}
 		switch g.Intn(6) {
 		case 0:
 			p.D1Ms, p.D2Ms = 0, 0
@@ -96,6 +101,7 @@ type c19Doer struct {
 	names    []string
 	answered map[string]time.Time // peer -> CurrentTime it reported
 	asked    map[string]int
+	mu       sync.Mutex
 }
 
 type bodyCloser struct{ io.Reader }
@@ -108,7 +114,9 @@ func (d *c19Doer) Do(req *http.Request) (*http.Response, error) {
 	if p == nil {
 		return nil, errors.New("no such host " + host)
 	}
+	d.mu.Lock()
 	d.asked[host]++
+	d.mu.Unlock()
 	ctx := req.Context()
 	wait := func(ms int64) error {
 		if ms <= 0 {
@@ -134,7 +142,7 @@ func (d *c19Doer) Do(req *http.Request) (*http.Response, error) {
 		return nil, err
 	}
 	// the peer reads its clock now
-	remote := time.Now().Add(time.Duration(p.OffMs) * time.Millisecond)
+	remote := time.Now().AddDate(p.OffY, 0, 0).Add(time.Duration(p.OffMs) * time.Millisecond)
 	if err := wait(p.D2Ms); err != nil {
 		return nil, err
 	}
@@ -146,7 +154,9 @@ func (d *c19Doer) Do(req *http.Request) (*http.Response, error) {
 	}
 	st := health.ServerStatus{State: "Follower", Leader: d.names[0], Peers: append([]string{"self:1"}, d.names...), CurrentTime: remote}
 	b, _ := json.Marshal(&st)
+	d.mu.Lock()
 	d.answered[host] = remote
+	d.mu.Unlock()
 	return &http.Response{StatusCode: 200, Status: "200 OK", Body: bodyCloser{bytes.NewReader(b)}, Header: http.Header{"Content-Type": []string{"application/json"}}}, nil
 }
 
@@ -159,7 +169,20 @@ func (c19Engine) Execute(raw json.RawMessage, prop string) (*core.Result, error)
 	}
 	res := &core.Result{}
 	tr := &core.Trace{}
-	synctest.Test(c19T, func(t *testing.T) {
+	bubble := func(f func(t *testing.T)) {
+		defer func() {
+			// a request the code under test abandoned may still be waiting in the simulated wire when the
+			// bubble ends; the verdict has been recorded by then
+			if rec := recover(); rec != nil {
+				if s := fmt.Sprint(rec); !strings.Contains(s, "main bubble goroutine has exited but blocked goroutines remain") {
+					panic(rec)
+				}
+				res.Add("abandoned_requests_at_end", 1)
+			}
+		}()
+		synctest.Test(c19T, f)
+	}
+	bubble(func(t *testing.T) {
 		d := &c19Doer{peers: map[string]*c19Peer{}, answered: map[string]time.Time{}, asked: map[string]int{}}
 		for i := range sc.Steps {
 			name := fmt.Sprintf("peer%d:60667", i)
@@ -195,6 +218,14 @@ func (c19Engine) Execute(raw json.RawMessage, prop string) (*core.Result, error)
 			err = SynchronizedWithNetwork("self:1", cfg, "pw")
 		}
 		res.SimMillis = time.Since(t0).Milliseconds()
+		// "answered" = the peer's reply reached the node within the time the HTTP client grants a request
+		// (its own timeout cancels the request otherwise). A decision taken before that time has passed is
+		// judged against the replies that were still on their way.
+		if len(d.answered) < len(d.asked) {
+			time.Sleep(6 * time.Second)
+		}
+		d.mu.Lock()
+		defer d.mu.Unlock()
 		tr.Log("api=%s disabled=%v err=%v answered=%d", sc.API, sc.Disabled, err != nil, len(d.answered))
 		res.Add("peers", int64(len(sc.Steps)))
 		res.Add("answered", int64(len(d.answered)))
@@ -209,11 +240,14 @@ func (c19Engine) Execute(raw json.RawMessage, prop string) (*core.Result, error)
 		for name, p := range d.peers {
 			_, ans := d.answered[name]
 			if ans {
-				if p.OffMs >= 2000 || p.OffMs <= -2000 {
+				if p.OffMs >= 2000 || p.OffMs <= -2000 || p.OffY != 0 {
 					offenders = append(offenders, name)
 					res.Add("answering_offenders", 1)
+					if p.OffY != 0 {
+						res.Add("answering_offenders_years_off", 1)
+					}
 				}
-				if p.OffMs != 0 || p.D1Ms+p.D2Ms > 200 {
+				if p.OffMs != 0 || p.OffY != 0 || p.D1Ms+p.D2Ms > 200 {
 					allTiny = false
 				}
 				if (p.OffMs > 1500 && p.OffMs < 2500) || (p.OffMs < -1500 && p.OffMs > -2500) {
@@ -239,7 +273,7 @@ func (c19Engine) Execute(raw json.RawMessage, prop string) (*core.Result, error)
 			var desc []string
 			for _, o := range offenders {
 				p := d.peers[o]
-				desc = append(desc, fmt.Sprintf("%s offset=%dms request-delay=%dms response-delay=%dms", o, p.OffMs, p.D1Ms, p.D2Ms))
+				desc = append(desc, fmt.Sprintf("%s offset=%dy%dms request-delay=%dms response-delay=%dms", o, p.OffY, p.OffMs, p.D1Ms, p.D2Ms))
 			}
 			silent := res.Stats["silent_peers"] > 0
 			sig := "accepted-offender"
